@@ -149,8 +149,9 @@ def check_linearity(ctx: Ctx, rule: str) -> None:
         outs = set()
         for r in rets:
             e = r.value
-            while isinstance(e, ast.Attribute) and e.attr == 'T':
-                e = e.value
+            while (isinstance(e, ast.Attribute) and e.attr == 'T') or (isinstance(e, ast.Call) and isinstance(e.func, ast.Attribute)
+                                                                       and e.func.attr in ('transpose', 'copy', 'conj') and not e.args):
+                e = e.value if isinstance(e, ast.Attribute) else e.func.value
             if isinstance(e, ast.Name):
                 outs.add(e.id)
         if not outs:
@@ -473,40 +474,113 @@ def _check_direction_aware_count(ctx: Ctx) -> None:
             return e.slice.value
         return None
 
-    tests = [n for n in walk_no_nested(fn.node) if isinstance(n, ast.If)
-             and any(norm(c).replace(' ', '') == '%s.ndim==1' % sig for c in ast.walk(n.test) if isinstance(c, ast.Compare))]
-    if not tests:
-        ctx.error('C03.i: no `%s.ndim == 1` decision in %s (cannot tell)' % (sig, fn.qualname))
+    # decision procedure: the helper is executed symbolically for every truth assignment of the four atoms
+    #   N  = `signal.ndim == 1`,  S = switched_direction,  T1 = (transmit-side count == 1),  R1 = (receive-side count == 1)
+    # and must add the antenna axis exactly when  N and (R1 if S else T1)
+    import itertools
+
+    class CannotTell(Exception):
+        pass
+
+    def sym_of(e, env):
+        """'tx' / 'rx' when e denotes the count of generator-shape axis 2 / 1, else None"""
+        if isinstance(e, ast.Name) and e.id in env:
+            return env[e.id]
+        ax = axis_of(e)
+        return {1: 'rx', 2: 'tx'}.get(ax)
+
+    def truth(t, env, A):
+        if isinstance(t, ast.UnaryOp) and isinstance(t.op, ast.Not):
+            return not truth(t.operand, env, A)
+        if isinstance(t, ast.BoolOp):
+            vals = [truth(v, env, A) for v in t.values]
+            return all(vals) if isinstance(t.op, ast.And) else any(vals)
+        if is_self_attr(t, sn) == 'switched_direction' or (isinstance(t, ast.Name) and env.get(t.id) == 'S'):
+            return A['S']
+        if isinstance(t, ast.Name) and isinstance(env.get(t.id), tuple) and env[t.id][0] == 'bool':
+            return env[t.id][1]
+        if isinstance(t, ast.Compare) and len(t.ops) == 1 and isinstance(t.comparators[0], ast.Constant):
+            c, op, l = t.comparators[0].value, t.ops[0], t.left
+            if norm(l).replace(' ', '') == '%s.ndim' % sig and c in (1, 2) and isinstance(op, (ast.Eq, ast.NotEq)):
+                v = A['N'] if c == 1 else not A['N']
+                return v if isinstance(op, ast.Eq) else not v
+            if (is_self_attr(l, sn) == 'switched_direction' or (isinstance(l, ast.Name) and env.get(l.id) == 'S')) and isinstance(c, bool):
+                v = A['S'] == c
+                return v if isinstance(op, (ast.Eq, ast.Is)) else not v
+            # the analysis is about the MIMO generator (three shape axes); the SISO generator has no antenna counts
+            if isinstance(l, ast.Call) and norm(l.func) == 'len' and l.args and norm(l.args[0]).endswith('_fading_generator.shape') \
+                    and isinstance(op, (ast.Eq, ast.NotEq)):
+                v = c == 3
+                return v if isinstance(op, ast.Eq) else not v
+            k = sym_of(l, env)
+            if k in ('tx', 'rx') and c == 1 and isinstance(op, (ast.Eq, ast.NotEq)):
+                v = A['T1'] if k == 'tx' else A['R1']
+                return v if isinstance(op, ast.Eq) else not v
+            if k in ('tx', 'rx') and c == 1 and isinstance(op, ast.Gt):
+                return not (A['T1'] if k == 'tx' else A['R1'])
+        raise CannotTell(norm(t)[:60])
+
+    def run(body, env, A, st):
+        for s_ in body:
+            if isinstance(s_, ast.Expr) and isinstance(s_.value, ast.Constant):
+                continue
+            if isinstance(s_, ast.Assign) and len(s_.targets) == 1:
+                tg, v = s_.targets[0], s_.value
+                if isinstance(tg, ast.Name) and tg.id == sig:
+                    if isinstance(v, ast.Call) and norm(v.func) in ('np.reshape', 'np.atleast_2d', 'np.expand_dims') or \
+                            (isinstance(v, ast.Subscript) and any(isinstance(x, ast.Constant) and x.value is None for x in ast.walk(v.slice))) or \
+                            (isinstance(v, ast.Call) and isinstance(v.func, ast.Attribute) and v.func.attr == 'reshape'):
+                        st['reshaped'] = True
+                        continue
+                    raise CannotTell('store to the signal: ' + norm(s_)[:50])
+                if isinstance(tg, ast.Name):
+                    if is_self_attr(v, sn) == 'switched_direction':
+                        env[tg.id] = 'S'
+                    elif isinstance(v, (ast.Compare, ast.BoolOp)) or (isinstance(v, ast.UnaryOp) and isinstance(v.op, ast.Not)):
+                        env[tg.id] = ('bool', truth(v, env, A))           # a named test: evaluated where it is bound
+                    else:
+                        env[tg.id] = sym_of(v, env)
+                    continue
+                if isinstance(tg, (ast.Tuple, ast.List)) and norm(v).endswith('_fading_generator.shape'):
+                    for idx, x in enumerate(tg.elts):
+                        if isinstance(x, ast.Name):
+                            env[x.id] = {1: 'rx', 2: 'tx'}.get(idx)
+                    continue
+                if isinstance(tg, (ast.Tuple, ast.List)) and isinstance(v, (ast.Tuple, ast.List)) and len(v.elts) == len(tg.elts):
+                    for x, xv in zip(tg.elts, v.elts):
+                        if isinstance(x, ast.Name):
+                            env[x.id] = sym_of(xv, env)
+                    continue
+                continue
+            if isinstance(s_, ast.If):
+                run(s_.body if truth(s_.test, env, A) else s_.orelse, env, A, st)
+                if st.get('returned'):
+                    return
+                continue
+            if isinstance(s_, ast.Return):
+                st['returned'] = True
+                return
+            if isinstance(s_, (ast.Assert, ast.Pass, ast.AnnAssign)):
+                continue
+            raise CannotTell('statement ' + type(s_).__name__)
+
     problems = []
-    seen = set()
-    for t in tests:
-        try:
-            paths = cond_values(fn, t)
-        except OverflowError:
-            ctx.error('C03.i: too many paths in %s' % fn.qualname)
-        for conds, env in paths:
-            sw = [c for c in conds if 'switched_direction' in c]
-            switched = None
-            if len(sw) == 1 and sw[0].replace(' ', '') in ('%s.switched_direction' % sn, 'not%s.switched_direction' % sn):
-                switched = not sw[0].startswith('not')
-            from ..astutil import _subst_env
-            cmp = [c for c in ast.walk(_subst_env(t.test, env)) if isinstance(c, ast.Compare) and len(c.ops) == 1 and isinstance(c.ops[0], ast.Eq)
-                   and isinstance(c.comparators[0], ast.Constant) and c.comparators[0].value == 1 and 'ndim' not in norm(c.left)]
-            if len(cmp) != 1:
-                ctx.error('C03.i: the single-stream decision `%s` has no antenna count compared with 1 (cannot tell)' % norm(t.test)[:70])
-            ax = axis_of(cmp[0].left)
-            if ax is None:
-                ctx.error('C03.i: cannot trace `%s` back to an axis of the generator shape (cannot tell)' % norm(cmp[0].left)[:50])
-            for case in ([switched] if switched is not None else [True, False]):
-                seen.add(case)
-                want = 1 if case else 2
-                if ax != want:
-                    problems.append('with the direction %sswitched the decision looks at axis %d of the generator shape, the transmit side is axis %d'
-                                    % ('' if case else 'not ', ax, want))
-    ok = not problems and seen == {True, False}
-    ctx.obligation('C03.i', fn.qualname, ok, {'problems': sorted(set(problems)), 'directions_covered': sorted(seen)})
+    try:
+        for bits in itertools.product([False, True], repeat=4):
+            A = dict(zip(('N', 'S', 'T1', 'R1'), bits))
+            st: Dict = {}
+            run(fn.node.body, {}, A, st)
+            want = A['N'] and (A['R1'] if A['S'] else A['T1'])
+            if bool(st.get('reshaped')) != want:
+                problems.append('1-D signal=%s, switched=%s, transmit-side count==1: %s, receive-side count==1: %s -> antenna axis %s, should be %s'
+                                % (A['N'], A['S'], A['T1'], A['R1'], 'added' if st.get('reshaped') else 'not added', 'added' if want else 'not added'))
+    except CannotTell as e:
+        ctx.error('C03.i: the single-stream decision of %s contains `%s`, which is not a test of signal.ndim, the direction flag or an antenna count '
+                  'of the generator shape (cannot tell)' % (fn.qualname, e))
+    ok = not problems
+    ctx.obligation('C03.i', fn.qualname, ok, {'assignments_checked': 16, 'disagreements': problems[:4]})
     if not ok:
-        ctx.violation('C03.i', fn.qualname, 'single-stream decision ignores the current direction: %s' % '; '.join(sorted(set(problems)) or ['a direction is not covered']),
+        ctx.violation('C03.i', fn.qualname, 'single-stream decision ignores the current direction: %s' % problems[0],
                       fn.path, fn.lineno, operand='direction-aware')
 
 
